@@ -3765,4 +3765,141 @@ theorem rows_swapEdges (env : SpecEnv) (q : Query) (p : Path) (j : Nat) (E1 E2 :
   obtain ⟨l, hl, hf2⟩ := asgs_swapEdges env q p j E1 E2 hp hf hg hok as as' has has'
   exact ⟨l.map rowOf, hl.map rowOf, hf2.map (fun a b hab => rowOf_perm_of_asgEq hab)⟩
 
+
+/-! ### rows with distinct output names: the sorted row is canonical -/
+
+/-- Sorted by key (weakly). -/
+def RowSorted (r : Row) : Prop := r.Pairwise fun x y => ¬ (y.1 < x.1)
+
+theorem mem_insertSorted {kv x : Name × Value} {r : Row} (h : x ∈ insertSorted kv r) : x = kv ∨ x ∈ r := by
+  have := (insertSorted_perm kv r).mem_iff.mp h
+  simpa using this
+
+theorem insertSorted_sorted (kv : Name × Value) (r : Row) (h : RowSorted r) : RowSorted (insertSorted kv r) := by
+  induction r with
+  | nil => simp [insertSorted, RowSorted]
+  | cons x xs ih =>
+    simp only [RowSorted, List.pairwise_cons] at h
+    simp only [insertSorted]
+    split
+    · rename_i hlt
+      simp only [RowSorted, List.pairwise_cons]
+      refine ⟨?_, h⟩
+      intro y hy
+      rcases List.mem_cons.mp hy with rfl | hy
+      · exact String.lt_asymm hlt
+      · exact fun hyk => h.1 y hy (String.lt_trans hyk hlt)
+    · rename_i hnl
+      simp only [RowSorted, List.pairwise_cons]
+      refine ⟨?_, ih h.2⟩
+      intro y hy
+      rcases mem_insertSorted hy with rfl | hy
+      · exact hnl
+      · exact h.1 y hy
+
+theorem sortRow_sorted (r : Row) : RowSorted (sortRow r) := by
+  induction r with
+  | nil => simp [sortRow, RowSorted]
+  | cons kv r ih => exact insertSorted_sorted kv _ ih
+
+theorem eq_of_key_eq {l : Row} (hn : (l.map (·.1)).Nodup) {a b : Name × Value} (ha : a ∈ l) (hb : b ∈ l)
+    (h : a.1 = b.1) : a = b := by
+  induction l with
+  | nil => simp at ha
+  | cons x xs ih =>
+    simp only [List.map_cons, List.nodup_cons] at hn
+    have key : ∀ c : Name × Value, c ∈ xs → c.1 ≠ x.1 :=
+      fun c hc heq => hn.1 (List.mem_map.mpr ⟨c, hc, heq⟩)
+    rcases List.mem_cons.mp ha with hax | hax
+    · rcases List.mem_cons.mp hb with hbx | hbx
+      · rw [hax, hbx]
+      · exact absurd (by rw [← h, hax]) (key b hbx)
+    · rcases List.mem_cons.mp hb with hbx | hbx
+      · exact absurd (by rw [h, hbx]) (key a hax)
+      · exact ih hn.2 hax hbx
+
+/-- Two sorted rows with the same `(name, value)` pairs and distinct names are equal. -/
+theorem eq_of_perm_sorted {l1 l2 : Row} (hp : l1.Perm l2) (h1 : RowSorted l1) (h2 : RowSorted l2)
+    (hn : (l1.map (·.1)).Nodup) : l1 = l2 := by
+  refine List.Perm.eq_of_pairwise ?_ h1 h2 hp
+  intro a b ha hb hab hba
+  have hk : a.1 = b.1 := String.le_antisymm (String.not_lt.mp hab) (String.not_lt.mp hba)
+  exact eq_of_key_eq hn ha (hp.mem_iff.mpr hb) hk
+
+theorem rows_sorted {env : SpecEnv} {q : Query} {rs : List Row} (h : rows env q = .ok rs) :
+    ∀ r ∈ rs, RowSorted r := by
+  obtain ⟨as, _, rfl⟩ := rows_ok.mp h
+  intro r hr
+  obtain ⟨a, _, rfl⟩ := List.mem_map.mp hr
+  exact sortRow_sorted _
+
+/-- Rows whose output names are pairwise distinct. -/
+def DistinctKeys (rs : List Row) : Prop := ∀ r ∈ rs, (r.map (·.1)).Nodup
+
+theorem forall₂_perm_eq {rs' rs : List Row} (h : Forall₂ (fun r' r => r'.Perm r) rs' rs)
+    (hs' : ∀ r ∈ rs', RowSorted r) (hs : ∀ r ∈ rs, RowSorted r) (hd : DistinctKeys rs) : rs' = rs := by
+  induction h with
+  | nil => rfl
+  | cons hab _ ih =>
+    rename_i a b l1 l2 _
+    have e : a = b := by
+      refine eq_of_perm_sorted hab (hs' a (by simp)) (hs b (by simp)) ?_
+      exact (hab.map (·.1)).nodup_iff.mpr (hd b (by simp))
+    rw [e, ih (fun r hr => hs' r (by simp [hr])) (fun r hr => hs r (by simp [hr]))
+      (fun r hr => hd r (by simp [hr]))]
+
+theorem renameRowKeys_nodup {σ : Name → Name} (hσ : Function.Injective σ) {r : Row}
+    (h : (r.map (·.1)).Nodup) : ((renameRowKeys σ r).map (·.1)).Nodup := by
+  simp only [renameRowKeys, List.map_map]
+  have : ((fun x : Name × Value => x.1) ∘ fun kv : Name × Value => (σ kv.1, kv.2)) = σ ∘ (·.1) := rfl
+  rw [this, ← List.map_map]
+  exact (List.pairwise_map.mpr (h.imp fun hne heq => hne (hσ heq)))
+
+/-- With distinct output names the renamed query's rows are the original rows, renamed and re-sorted. -/
+theorem rows_renameOutputs_eq {σ : Name → Name} (hσ : Function.Injective σ) (env : SpecEnv) (q : Query)
+    (rs : List Row) (h : rows env q = .ok rs) (hd : DistinctKeys rs) :
+    rows env (renameOutputs σ q) = .ok (rs.map fun r => sortRow (renameRowKeys σ r)) := by
+  obtain ⟨rs', h', hf⟩ := rows_renameOutputs_perm hσ env q rs h
+  rw [h']
+  congr 1
+  have hf2 : Forall₂ (fun r' r => r'.Perm r) rs' (rs.map fun r => sortRow (renameRowKeys σ r)) := by
+    clear h h' hd
+    induction hf with
+    | nil => exact .nil
+    | cons hab _ ih => exact .cons (hab.trans (sortRow_perm _).symm) ih
+  refine forall₂_perm_eq hf2 (rows_sorted h') ?_ ?_
+  · intro r hr
+    obtain ⟨r0, _, rfl⟩ := List.mem_map.mp hr
+    exact sortRow_sorted _
+  · intro r hr
+    obtain ⟨r0, hr0, rfl⟩ := List.mem_map.mp hr
+    exact ((sortRow_perm _).map (·.1)).nodup_iff.mpr (renameRowKeys_nodup hσ (hd r0 hr0))
+
+
+/-- With distinct output names, swapping a property with its neighbour changes nothing. -/
+theorem rows_swapProps_eq (env : SpecEnv) (q : Query) (p : Path) (j : Nat) (f g : QField)
+    (hp : NoFoldPath p q.root) (hf : fieldAt p j q.root = some f)
+    (hg : fieldAt p (j + 1) q.root = some g) (hok : swapPropsOK f g = true)
+    (rs rs' : List Row) (h : rows env q = .ok rs) (h' : rows env (swapSiblings p j q) = .ok rs')
+    (hd : DistinctKeys rs) : rs' = rs :=
+  forall₂_perm_eq (rows_swapProps env q p j f g hp hf hg hok rs rs' h h') (rows_sorted h')
+    (rows_sorted h) hd
+
+/-- With distinct output names, swapping two independent edges permutes the rows. -/
+theorem rows_swapEdges_perm (env : SpecEnv) (q : Query) (p : Path) (j : Nat) (E1 E2 : QField)
+    (hp : NoFoldPath p q.root) (hf : fieldAt p j q.root = some E1)
+    (hg : fieldAt p (j + 1) q.root = some E2) (hok : swapEdgesOK E1 E2 = true)
+    (rs rs' : List Row) (h : rows env q = .ok rs) (h' : rows env (swapSiblings p j q) = .ok rs')
+    (hd : DistinctKeys rs) : rs'.Perm rs := by
+  obtain ⟨as, has, rfl⟩ := rows_ok.mp h
+  obtain ⟨as', has', rfl⟩ := rows_ok.mp h'
+  obtain ⟨l, hl, hf2⟩ := asgs_swapEdges env q p j E1 E2 hp hf hg hok as as' has has'
+  have e : l.map rowOf = as.map rowOf := by
+    refine forall₂_perm_eq (hf2.map (fun a b hab => rowOf_perm_of_asgEq hab)) ?_ (rows_sorted h) hd
+    intro r hr
+    obtain ⟨a, _, rfl⟩ := List.mem_map.mp hr
+    exact sortRow_sorted _
+  rw [← e]
+  exact hl.map rowOf
+
 end TF.SpecMeta
